@@ -123,6 +123,18 @@ package statf
 //@   site if#9 assert [C03] buf.buf.bytes == e8
 //@   site if#11 assert [C03] buf.buf.bytes == e9
 //@   site if#13 assert [C03] buf.buf.bytes == e10
+//@   site ).Write#0 assert [C03] $2 == 0
+//@   site ).Write#1 assert [C03] $2 == 1
+//@   site ).Write#2 assert [C03] $2 == 2
+//@   site ).Write#3 assert [C03] $2 == 3
+//@   site ).Write#4 assert [C03] $2 == 4
+//@   site ).Write#5 assert [C03] $2 == 5
+//@   site ).Write#6 assert [C03] $2 == 6
+//@   site ).Write#7 assert [C03] $2 == 7
+//@   site ).Write#8 assert [C03] $2 == 8
+//@   site ).Write#9 assert [C03] $2 == 9
+//@   site ).Write#10 assert [C03] $2 == 10
+//@   sites ).Write = 11
 //@   safety [C03]
 //
 //@ func (*StatMicMsgHead).WriteBlock
@@ -191,6 +203,22 @@ package statf
 //@   ensures [C05] readBuf.buf.i >= p0
 //@   ensures [C05] validR(readBuf)
 //@   safety [C05]
+//
+//@ func (*StatMicMsgBody).WriteTo
+//@   argsonly
+//@   noframe
+//@   allocates
+//@   site ).Write#0 assert [C03] $2 == 0
+//@   site ).Write#1 assert [C03] $2 == 1
+//@   site ).Write#2 assert [C03] $2 == 2
+//@   site ).Write#3 assert [C03] $1 == 8 && $2 == 3
+//@   site ).Write#4 assert [C03] $2 == 0
+//@   site ).Write#5 assert [C03] $2 == 0
+//@   site ).Write#6 assert [C03] $2 == 1
+//@   site ).Write#7 assert [C03] $2 == 4
+//@   site ).Write#8 assert [C03] $2 == 5
+//@   site ).Write#9 assert [C03] $2 == 6
+//@   sites ).Write = 10
 //
 //@ func (*StatSampleMsg).ResetDefault
 //@   requires st != nil
@@ -285,6 +313,16 @@ package statf
 //@   perreturn
 //@   modifies buf.buf.bytes
 //@   ensures [C03] err == nil && buf.buf.bytes == pre
+//@   site ).Write#0 assert [C03] $2 == 0
+//@   site ).Write#1 assert [C03] $2 == 1
+//@   site ).Write#2 assert [C03] $2 == 2
+//@   site ).Write#3 assert [C03] $2 == 3
+//@   site ).Write#4 assert [C03] $2 == 4
+//@   site ).Write#5 assert [C03] $2 == 5
+//@   site ).Write#6 assert [C03] $2 == 6
+//@   site ).Write#7 assert [C03] $2 == 7
+//@   site ).Write#8 assert [C03] $2 == 8
+//@   sites ).Write = 9
 //@   safety [C03]
 //
 //@ func (*StatSampleMsg).WriteBlock
@@ -351,6 +389,8 @@ package statf
 //@   perreturn
 //@   modifies buf.buf.bytes
 //@   ensures [C03] err == nil && buf.buf.bytes == pre
+//@   site ).Write#0 assert [C03] $2 == 0
+//@   sites ).Write = 1
 //@   safety [C03]
 //
 //@ func (*ProxyInfo).WriteBlock
